@@ -168,7 +168,7 @@ type Conc struct {
 	GoMaxProcs int    `json:"gmp"`
 	Workers    [][]Op `json:"w"`
 	GCPercent  int    `json:"gcpercent,omitempty"` // >0: debug.SetGCPercent before the workers start
-	Shared     *Src   `json:"shared,omitempty"` // installed before the workers start; Read is mutex protected
+	Shared     *Src   `json:"shared,omitempty"`    // installed before the workers start; Read is mutex protected
 	// Pre is executed sequentially by the main goroutine before the workers are
 	// created (a history: failing calls, unsupported values, first uses); its
 	// results are reported with G == -1.
